@@ -31,4 +31,14 @@ instance : Decidable GoodVerify := by unfold GoodVerify; infer_instance
 def GoodLimiter : Prop := limiterRateIsConfigPerSecond = true ∧ limiterBurstIsConfig = true
 instance : Decidable GoodLimiter := by unfold GoodLimiter; infer_instance
 
+/-- C02: the allow-list of `JWT.Verify` is exactly the nine RS/PS/ES 256/384/512 names, `verifySignature` knows a hash
+for exactly those (hash size = suffix), RSA keys serve the RS*/PS* names and EC keys the ES* names, the skews are the
+two minutes / ten seconds the property names, a present `nbf` of wrong type is rejected, ES* signatures must have the exact
+r‖s length -/
+def nine : List String := ["ES256", "ES384", "ES512", "PS256", "PS384", "PS512", "RS256", "RS384", "RS512"]
+def GoodJwt : Prop :=
+  factsComplete = true ∧ supportedAlgs = nine ∧ hashAlgs = nine ∧ rsaAlgPrefixes = ["PS", "RS"] ∧ ecAlgPrefixes = ["ES"] ∧
+  skewFutureSec = 120 ∧ skewPastSec = 10 ∧ nbfTypeChecked = true ∧ ecdsaSigLenExact = true
+instance : Decidable GoodJwt := by unfold GoodJwt; infer_instance
+
 end Oidc.Facts
